@@ -5,7 +5,7 @@
 (* taken on an accepted path in the variable kf.                                          *)
 EXTENDS Lru, TLC
 
-KnownIds == {"C17-KF1", "C17-KF2"}     \* C17-KF4 is a note of Trace_Lru (accepted refusal), not a deviation
+KnownIds == {"C17-KF1", "C17-KF2", "C17-KF5"}     \* C17-KF4 is a note of Trace_Lru (accepted refusal), not a deviation
 
 (* ---- observation of the shard an operation went to (ConcurrentLruMap) ----            *)
 (* The harness logs, before and after every call, shard_sizes() and the per-shard        *)
@@ -56,10 +56,18 @@ KF1(e, subj) == G1(e, subj) /\ ApplyWhereObserved(e)
 G2(e, subj) == subj.fam = "clru" /\ subj.strategy = "aff" /\ subj.shards > 1 /\ subj.threads > 1 /\ WrongShard(e)
 KF2(e, subj) == G2(e, subj) /\ ApplyWhereObserved(e)
 
+(* C17-KF5: ConcurrentLruMap::keys() is a placeholder: it loops over the shards without collecting   *)
+(* anything and returns an empty vector whatever the map holds.  Deviation: exactly the empty      *)
+(* answer of keys() on a non-empty map is accepted; nothing changes.                               *)
+G5(e, subj) == subj.fam = "clru" /\ e.op = "keys" /\ e.r = <<>> /\ AllKeys /= {}
+KF5(e, subj) == G5(e, subj) /\ UNCHANGED <<lru, loc, last>>
+
 DevApplies(id, e, subj) ==
     \/ id = "C17-KF1" /\ G1(e, subj)
     \/ id = "C17-KF2" /\ G2(e, subj)
+    \/ id = "C17-KF5" /\ G5(e, subj)
 KnownDeviation(id, e, subj) ==
     \/ id = "C17-KF1" /\ KF1(e, subj)
     \/ id = "C17-KF2" /\ KF2(e, subj)
+    \/ id = "C17-KF5" /\ KF5(e, subj)
 =============================================================================
